@@ -1,4 +1,6 @@
 import IGVerif.Spec.Grammar
+import IGVerif.Proofs.Reorder
+import IGVerif.Spec.Symbols
 /-! C18 — order of different components and unannotated text do not matter. -/
 namespace IGVerif.C18
 open IGVerif
@@ -64,5 +66,30 @@ theorem denote_change_filler (w w' : Str) (pre post : List Part)
   rw [denote_insert_filler w pre post hx ho, denote_insert_filler w' pre post hx' ho']
 
 example : contains (str "[XOR]") (str "shall, in time") = false ∧ contains (str "[OR]") (str "shall, in time") = false := by decide
+
+/-- **Order of different components does not matter**: swapping two adjacent parts (annotations,
+    nested statements, nested combinations, words) that do not fill the same statement field
+    leaves the meaning of the statement unchanged, at any position. Every reordering that keeps
+    the relative order of the annotations of each component type is a sequence of such swaps. -/
+theorem reorder_adjacent (pre : List Part) (p q : Part) (post : List Part) (h : Part.independent p q) :
+    denoteS (.mk (pre ++ p :: q :: post)) = denoteS (.mk (pre ++ q :: p :: post)) :=
+  denoteS_swap pre p q post h
+
+/-- annotations of two different component types are independent -/
+theorem annotations_of_different_fields_independent (h₁ h₂ : Hdr) (o₁ o₂ : Bool) (e₁ e₂ : Expr)
+    (hd : ∀ f, h₁.sym.simple = some f → h₂.sym.simple ≠ some f) :
+    Part.independent (.ann h₁ o₁ e₁) (.ann h₂ o₂ e₂) := by
+  refine ⟨?_, ?_, ?_⟩
+  · intro f hf; exact hd f hf
+  · intro f hf; simp [Part.comboTarget] at hf
+  · intro f hf; simp [Part.nestedTarget] at hf
+
+/-- unannotated text is independent of everything -/
+theorem filler_independent (w : Str) (q : Part) : Part.independent (.filler w) q := by
+  refine ⟨?_, ?_, ?_⟩ <;> intro f hf <;> simp [Part.simpleTarget, Part.comboTarget, Part.nestedTarget] at hf
+
+/-- non-vacuity: `A(x) I(y)` and `I(y) A(x)` -/
+example : Part.independent (.ann { sym := Sym.A } true (.leaf (str "x"))) (.ann { sym := Sym.I } true (.leaf (str "y"))) := by
+  refine ⟨?_, ?_, ?_⟩ <;> intro f hf <;> simp_all [Part.simpleTarget, Part.comboTarget, Part.nestedTarget, Sym.A, Sym.I, mkSym] <;> omega
 
 end IGVerif.C18
